@@ -130,6 +130,9 @@ fn rt_inner<F: Flavour>(sc: &RtSc, stats: &mut Stats) -> Option<Violation> {
     crate::keys::set_style(crate::keys::style_from(sc.ser_hash));
     hashseam::set_seed(sc.ser_hash);
     let (mut nodes, mut g) = build::<F>(&sc.prios, &sc.edges, &sc.insert_order);
+    if sc.edges.len() >= 2_731 {
+        stats.inc("bulk_graphs_of_2731_or_more_edges");
+    }
     for (kind, k) in &sc.churn {
         let k = *k;
         if k >= nodes.len() {
@@ -517,7 +520,21 @@ impl Engine for RoundTrip {
             flavour = f;
         }
         let small = rng.chance(50, 100);
-        let (prios, edges) = gen_graph(rng, small, if tier == Tier::Quick { 24 } else { 40 });
+        let (mut prios, mut edges) = gen_graph(rng, small, if tier == Tier::Quick { 24 } else { 40 });
+        // bulk graphs (one run in 5000): 2 700 - 9 000 edges over 30 - 300 nodes. Whatever a
+        // serialiser or deserialiser does differently for long edge lists - batches, chunks,
+        // buffers of a fixed byte size, another sort - must still round-trip, in every wire format.
+        if rng.chance(1, 5000) {
+            let n = rng.range(30, 300);
+            prios = (0..n).map(|_| rng.below(5) as u32).collect();
+            edges.clear();
+            let m = *rng.pick(&[2_731usize, 2_800, 4_097, 4_200, 5_500, 8_200]) + rng.below(800);
+            for i in 0..m {
+                let u = rng.below(n);
+                let v = if rng.chance(1, 20) { u } else { rng.below(n) };
+                edges.push((u, v, 100 + i as u64));
+            }
+        }
         let mut insert_order: Vec<usize> = (0..prios.len()).collect();
         rng.shuffle(&mut insert_order);
         let wire = *rng.pick(&[Wire::Json, Wire::Json, Wire::Cbor, Wire::Cbor, Wire::Cbor, Wire::JsonValue, Wire::JsonStr]);
